@@ -8,6 +8,7 @@ CONSTANTS K = 2
           Holds = {TRUE,FALSE}
           MaxClock = 1000000
           LibFoldersInKey = FALSE
+          Beyond = {}
           FreshLibHandles = FALSE
 INIT Init
 NEXT Next
